@@ -93,6 +93,14 @@ int main(void)
   econf_file **kfs = &sentinel_obj;       /* caller-initialised value */
   econf_file **const kfs_init = kfs;
   size_t size = 77;
+#ifdef NAME_NULL
+  /* C01: "both project and config name NULL must be refused, not crash" */
+  econf_err r0 = readConfigHistoryWithCallback(&kfs, &size, parse_dirs, NLAYERS, NULL, SUFFIX_ARG,
+                                               delim, comment, h1.join, h1.python,
+                                               conf_dirs, conf_count, h1.cb, h1.cb_data);
+  __CPROVER_assert(r0 != ECONF_SUCCESS && h1.nmain == 0 && h1.ntrav == 0 && h1.live == 0 && kfs == kfs_init,
+                   "C01: a NULL configuration name is refused with an error code and nothing is consulted");
+#endif
   econf_err r = readConfigHistoryWithCallback(&kfs, &size, parse_dirs, NLAYERS, "n", SUFFIX_ARG,
                                               delim, comment, h1.join, h1.python,
                                               conf_dirs, conf_count, h1.cb, h1.cb_data);
